@@ -44,7 +44,16 @@ def _strategy(draw):
                          wacc=draw(st.sampled_from([0.05, 0.4])))
                 if a["inflow"]:
                     a["inflow"] = 0.0
-        if a["type"] in ("simple", "contract") and a.get("start") is None and a.get("end") is None and draw(st.integers(0, 7)) == 0:
+        if a["type"] in ("simple", "contract") and draw(st.integers(0, 9)) == 0:
+            # a purchase contract with a spread whose capacity is out (zero) in some steps - one variable per step
+            T = spec["grid"]["T"]
+            mx = a["max_cap"] if isinstance(a["max_cap"], (int, float)) and a["max_cap"] > 0 else 2.0 / float(tl.dt(spec["grid"])[0])
+            fs = draw(st.lists(st.sampled_from([1.0, 0.5, 0.0, 0.0]), min_size=T, max_size=T))
+            cxn = "cap_out_%s" % a["name"]
+            spec["prices"][cxn] = [mx * f for f in fs]
+            a.update(min_cap=0.0, max_cap={"col": cxn}, extra_costs=draw(st.sampled_from([0.25, 1.0, 2.0])))
+            a["min_take"] = a["max_take"] = None
+        elif a["type"] in ("simple", "contract") and a.get("start") is None and a.get("end") is None and draw(st.integers(0, 7)) == 0:
             # capacities as numpy arrays, one rate per step of the asset (accepted next to numbers)
             T = spec["grid"]["T"]
             for k in ("min_cap", "max_cap"):
